@@ -932,24 +932,62 @@ def inline_calls(st, helpers, depth=0, used=None):
 
 
 def _hinfo(helper):
-    """(parameters, statements before the final return, returned expression | None, pure?) of a helper; None when it leaves
-    from the middle"""
+    """(parameters, statements before the final return | None, returned expression | None, pure?) of a helper.  The
+    statements are None when the helper returns from the middle (guard clauses: `_unreturn` restructures it); the whole
+    result is None when it returns from inside a loop / try."""
     params, body = helper[0], helper[1]
     if body[0] != "block":
         return None
     params = [p if isinstance(p, tuple) else (p, "subst", []) for p in params]
     stmts = list(body[1])
-    rets = [s for s, _ in walk(body) if s[0] == "return"]
+    rets = [(s, c) for s, c in walk(body) if s[0] == "return"]
     ret = None
-    if rets:
-        if len(rets) != 1 or not stmts or stmts[-1] is not rets[0]:
+    if rets and not (len(rets) == 1 and stmts and stmts[-1] is rets[0][0]):
+        if any(g[0] != "if" for s, c in rets for g in c):
             return None
-        ret = list(rets[0][1])
+        stmts = None
+    elif rets:
+        ret = list(rets[0][0][1])
         stmts = stmts[:-1]
-    core = ("block", stmts)
-    own = declared_locals(core) | {p for p, kind, typ in params if kind == "value"}
-    pure = written(core) <= own and not may_throw(body)
+    own = declared_locals(body) | {p for p, kind, typ in params if kind == "value"}
+    pure = written(body) <= own and not may_throw(body)
     return params, stmts, ret, pure
+
+
+def _has_return(st) -> bool:
+    return any(s[0] == "return" for s, _ in walk(st))
+
+
+def _unreturn(stmts, assign, budget=None):
+    """statements of a helper that returns from the middle -> the same computation without `return`: `return e;` becomes
+    `assign(e)` and what followed it runs in the other arm of the `if` that guarded it:
+        if (c) { A; return x; }  B; return y;      ->      if (c) { A; r = x; } else { B; r = y; }"""
+    budget = budget if budget is not None else [200]
+    out = []
+    for i, s in enumerate(stmts):
+        rest = list(stmts[i + 1:])
+        budget[0] -= 1
+        if budget[0] < 0:
+            raise CStmtError("helper too branchy to restructure")
+        if s[0] == "return":
+            return out + assign(list(s[1]))
+        if not _has_return(s):
+            out.append(s)
+            continue
+        if s[0] == "block":
+            return out + _unreturn(list(s[1]) + rest, assign, budget)
+        if s[0] == "if":
+            th = list(s[2][1]) if s[2][0] == "block" else [s[2]]
+            el = [] if s[3] is None else list(s[3][1]) if s[3][0] == "block" else [s[3]]
+
+            def ends(b):
+                return bool(b) and (b[-1][0] == "return" or (b[-1][0] == "if" and b[-1][3] is not None and ends([b[-1][2]] if b[-1][2][0] != "block" else b[-1][2][1])
+                                                             and ends([b[-1][3]] if b[-1][3][0] != "block" else b[-1][3][1])))
+            a = _unreturn(th + ([] if ends(th) else rest), assign, budget)
+            b = _unreturn(el + ([] if ends(el) else rest), assign, budget)
+            return out + [("if", s[1], ("block", a), ("block", b) if b else None)]
+        raise CStmtError("return inside a loop")
+    return out
 
 
 def _calls_in(tokens, helpers):
@@ -973,20 +1011,35 @@ def _expr_inline(tokens, helpers, depth=0):
         return tokens
     for i, j, name, args in _calls_in(tokens, helpers):
         h = _hinfo(helpers[name])
-        if h and not h[1] and h[2] and h[3] and len(args) == len(h[0]) and all(args):
+        if h and h[1] == [] and h[2] and h[3] and len(args) == len(h[0]) and all(args):
             m = {p[0]: (list(a) if len(a) == 1 else ["("] + list(a) + [")"]) for p, a in zip(h[0], args)}
             return _expr_inline(tokens[:i] + ["("] + _subst_tokens(h[2], m) + [")"] + tokens[j:], helpers, depth + 1)
     return tokens
 
 
-def _hoist(tokens, helpers, used):
-    """calls of pure multi-statement helpers nested inside an expression -> (tokens with temporaries, [`auto tmp = call;`])"""
+def _first_evaluated(tokens, i) -> bool:
+    """is the call starting at tokens[i] evaluated first and unconditionally in the expression?  (leftmost operand, possibly
+    after `x =` / `T x =`, an opening parenthesis or a unary operator)"""
+    before = list(tokens[:i])
+    if "=" in before:
+        j = before.index("=")
+        if not j or not all(IDENT.match(x) or x == "*" for x in before[:j]):
+            return False
+        before = before[j + 1:]
+    return all(x in ("(", "!", "-", "+") for x in before)
+
+
+def _hoist(tokens, helpers, used, lazy_ok=True):
+    """calls of helpers nested inside an expression -> (tokens with temporaries, [`auto tmp = call;`]): a pure helper anywhere
+    (evaluating it early, or although a `&&` would have skipped it, changes nothing), any other helper only where it is
+    evaluated first and unconditionally"""
     tokens = list(tokens)
     pre = []
     for _ in range(4):
         for i, j, name, args in _calls_in(tokens, helpers):
             h = _hinfo(helpers[name])
-            if h and h[1] and h[2] and h[3] and len(args) == len(h[0]) and all(args) and not (i == 0 and j == len(tokens)):
+            if h and h[1] != [] and (h[2] or h[1] is None) and (h[3] or (not pre and _first_evaluated(tokens, i))) \
+                    and len(args) == len(h[0]) and all(args) and not (i == 0 and j == len(tokens)):
                 tmp, n = f"{name}__ret", 1
                 while tmp in used:
                     n += 1
@@ -1000,15 +1053,19 @@ def _hoist(tokens, helpers, used):
     return tokens, pre
 
 
+DROPPED = "__dropped"         # suffix of the name that receives the result of an inlined helper whose caller ignores it
+
+
 def _inlined(callee, args, target, helper, used):
     h = _hinfo(helper)
     if h is None or len(args) != len(h[0]) or any(not a for a in args):
-        return None                         # (leaves from the middle: not modelled)
+        return None                         # (returns from inside a loop: not modelled)
     params, stmts, ret, _ = h
     body = helper[1]
-    if target is not None and not ret:
+    multi = stmts is None
+    if target is not None and not ret and not multi:
         return None
-    core = ("block", stmts)
+    core = body if multi else ("block", stmts)
     W = written(core)
     argids = {t for a in args for t in a if IDENT.match(t)}
     taken = used | argids | _idents(body) | {p[0] for p in params}
@@ -1040,6 +1097,18 @@ def _inlined(callee, args, target, helper, used):
     for L in sorted(locs):
         if L != elided and L in (used | argids):
             m[L] = [fresh(f"{L}__{callee}")]
+    if multi:
+        # guard-clause returns: every `return e;` assigns the target, the rest of the helper is the other arm
+        if target is not None and len(target) > 1:
+            prelude.append(("expr", list(target)))
+        tgt = [fresh(callee + DROPPED)] if target is None else [target[-1]] if simple else list(target)
+
+        def assign(e):
+            return [("expr", tgt + ["="] + e)] if e else []
+        try:
+            return ("block", prelude + _unreturn(_subst_stmt(body, m)[1], assign))
+        except CStmtError:
+            return None
     new = [_subst_stmt(s, m) for s in stmts]
     if elided is not None:
         v = target[-1]
@@ -1052,10 +1121,8 @@ def _inlined(callee, args, target, helper, used):
                 break
     elif ret is not None:
         r = _subst_tokens(ret, m)
-        if target is not None:
-            new.append(("expr", list(target) + ["="] + r))
-        elif "(" in r:
-            new.append(("expr", r))
+        # (a result the caller ignores is kept under a name of its own: a dropped status can be seen)
+        new.append(("expr", (list(target) if target is not None else ["auto", fresh(callee + DROPPED)]) + ["="] + r))
     return ("block", prelude + new)
 
 
@@ -1091,7 +1158,7 @@ def _subst_stmt(st, m):
         return ("try", _subst_stmt(st[1], m), [(d, _subst_stmt(b, m)) for d, b in st[2]])
     if k in ("expr", "return", "throw"):
         return (k, _subst_tokens(st[1], m))
-    return st
+    return tuple(list(st))                   # (a statement of its own: positions are kept per object)
 
 
 # ------------------------------------------------------------------ straight-line symbolic execution
